@@ -90,7 +90,18 @@ def probe_invariance(name, D, N, order, seed):
     rp = np.asarray(eqx.filter_jit(ex.repeat(st, n))(jnp.asarray(us[0])))
     res["repeat_jit"] = float(np.max(np.abs(rp - a[0, -1]))) if fin else 0.0
     sc_roll = (float(np.max(np.abs(a))) + 1e-300) if fin else 1.0
-    bad = {k: v for k, v in res.items() if v > (tol if k in ("jit", "vmap", "independence") else 1e-9 * sc_roll * (1 + 1e-4 * spec.zmax()))}
+    # a stacked batch handed to the stepper WITHOUT vmap (batch size = channel count, the one size a per-axis shape
+    # test cannot tell from a state): either refused, or every member's result is that member's own result
+    Bc = spec.C
+    usc = np.stack([S.random_state(rng, spec.C, D, N, "noise") for _ in range(Bc)])
+    try:
+        got = np.asarray(st(jnp.asarray(usc)))
+    except Exception:
+        got = None
+    if got is not None:
+        own = np.stack([np.asarray(st(jnp.asarray(usc[b]))) for b in range(Bc)])
+        res["unmapped_stack"] = float(np.max(np.abs(got - own))) if got.shape == own.shape else float("inf")
+    bad = {k: v for k, v in res.items() if v > (tol if k in ("jit", "vmap", "independence", "unmapped_stack") else 1e-9 * sc_roll * (1 + 1e-4 * spec.zmax()))}
     return {"ok": not bad, "bad": bad, "all": res}
 
 
